@@ -8,11 +8,11 @@ import (
 // ScriptReader delivers data; every Read answer is a choice:
 // 0 = everything asked (or everything left), 1.. = a short delivery.
 type ScriptReader struct {
-	Data     []byte
-	Pos      int
-	C        *Chooser
-	Calls    int
-	EOFStyle int // 0: (n,nil) then (0,EOF); 1: (n,EOF) together with the last bytes
+	Data      []byte
+	Pos       int
+	C         *Chooser
+	Calls     int
+	EOFStyle  int // 0: (n,nil) then (0,EOF); 1: (n,EOF) together with the last bytes
 	Delivered int
 }
 
